@@ -338,6 +338,87 @@ let po_line = function
         | _ -> "nomodel"))
   | _ -> "?"
 
+(* ---------------------------------------------------------------- pool forest: hierarchy x reference counting (UT/Pforest.v) *)
+let pf : forest ref = ref f_empty
+let pf_strs : (int, z list list) Hashtbl.t = Hashtbl.create 16   (* driver bookkeeping for `chk`: strings put into pool id *)
+let oid = function None -> "-" | Some i -> string_of_int (ion i)
+let pf_ptr f = function None -> "-" | Some i -> if live f i then string_of_int (ion i) else "!"
+(* the child chain as the harness walks it: stops at the first pointer that is not a live pool *)
+let pf_kids f (c : cell) =
+  let rec go o n acc =
+    match o with
+    | None -> List.rev acc
+    | Some i ->
+      if n > 600 then List.rev ("~" :: acc)
+      else (match get f i with
+            | None -> List.rev ("!" :: acc)
+            | Some cc -> go cc.c_next (n + 1) (string_of_int (ion i) :: acc)) in
+  match go c.c_children 0 [] with [] -> "-" | l -> String.concat "," l
+let pf_events f n0 =
+  let evs = drop n0 f.f_log in
+  let tok = function
+    | EUnits (_, n) -> let k = ion n in if k = 0 then [] else ["b" ^ string_of_int (2 * k)]
+    | EUd (_, t) -> ["d" ^ (match t with None -> "0" | Some t -> string_of_int (ion t))]
+    | EFree i -> ["f" ^ string_of_int (ion i)] in
+  match List.concat_map tok evs with [] -> "-" | l -> String.concat "," l
+let pf_tail f n0 =
+  let b = Buffer.create 256 in
+  Buffer.add_string b (" ev=" ^ pf_events f n0 ^ (if f.f_fault then " FAULT" else "") ^ " |");
+  List.iteri (fun i s ->
+    match s with
+    | Freed -> ()
+    | Live c ->
+      Buffer.add_string b (Printf.sprintf " %d:%s:%s:%s:%s:%d:%d:%d:%s:%d" i (soz c.c_refs) (pf_ptr f c.c_parent) (pf_kids f c)
+        (pf_ptr f c.c_next) (ion c.c_pool.p_usiz) (ion c.c_pool.p_asiz) (List.length c.c_pool.p_units)
+        (match c.c_ud with None -> "0" | Some t -> string_of_int (ion t)) (if c.c_udfn then 1 else 0))) f.f_slots;
+  Buffer.contents b
+let pf_live i = live !pf (nat i)
+let pf_do res f' = let n0 = List.length !pf.f_log in pf := f'; res ^ pf_tail f' n0
+let pf_pool siz = if siz = "e" then p_create_empty else p_create (nat (int_of_string siz))
+let pf_tok t = let t = int_of_string t in if t = 0 then None else Some (nat t)
+
+let pf_line = function
+  | ["reset"] -> pf := f_empty; Hashtbl.reset pf_strs; "ok"
+  | ["new"; siz] -> let (f', r) = f_create !pf (pf_pool siz) in pf_do ("id=" ^ string_of_int (ion r)) f'
+  | ["attach"; q; siz] ->
+    if q <> "nil" && not (pf_live (int_of_string q)) then "dead"
+    else
+      let (f', r) = f_attach !pf (if q = "nil" then None else Some (nat (int_of_string q))) (pf_pool siz) in
+      pf_do ("id=" ^ string_of_int (ion r)) f'
+  | ["destroy"; "nil"] -> pf_do "r=0" !pf
+  | ["drain"] -> pf_do "ok" (f_drain !pf)
+  | ["end"] ->
+    let n = List.length (List.filter (function Live _ -> true | Freed -> false) !pf.f_slots) in
+    let r = Printf.sprintf "live=%d dirty=0" n in
+    pf := f_empty; Hashtbl.reset pf_strs; r
+  | op :: id :: args ->
+    let i = int_of_string id in
+    if not (pf_live i) then "dead"
+    else
+      let p = nat i in
+      (match op, args with
+       | "ref", [] -> let (f', n) = f_ref !pf p in pf_do ("refs=" ^ soz n) f'
+       | "destroy", [] -> let (f', r) = f_destroy !pf p in pf_do (if r then "r=1" else "r=0") f'
+       | "freefn", [] -> let (f', _) = f_destroy !pf p in pf_do "r=-" f'
+       | "alloc", [n] ->
+         let n = int_of_string n in
+         (match get !pf p with
+          | Some c when c.c_pool.p_units = [] && n = 0 -> pf_do "p=0 unit=-1" !pf
+          | _ -> let (f', w) = f_alloc !pf p (nat n) in pf_do ("p=1" ^ po_where w) f')
+       | "put", [h] ->
+         let (f', w) = f_alloc !pf p (nat (hexlen h + 1)) in
+         Hashtbl.replace pf_strs i ((try Hashtbl.find pf_strs i with Not_found -> []) @ [bytes_of_hex h]);
+         pf_do ("v=" ^ h ^ po_where w) f'
+       | "chk", [] ->
+         let l = try Hashtbl.find pf_strs i with Not_found -> [] in
+         let c = List.fold_left crc_bytes 0xffffffff l in
+         pf_do (Printf.sprintf "n=%d t=1 crc=%08x" (List.length l) (crc_fin c)) !pf
+       | "ud", [t; fn] -> pf_do "ok" (f_ud_set !pf p (pf_tok t) (fn <> "0"))
+       | "udget", [] -> let (f', t) = f_ud_get !pf p in pf_do ("ud=" ^ (match t with None -> "0" | Some t -> string_of_int (ion t))) f'
+       | "uddetach", [] -> let (f', t) = f_ud_detach !pf p in pf_do ("ud=" ^ (match t with None -> "0" | Some t -> string_of_int (ion t))) f'
+       | _ -> "?")
+  | _ -> "?"
+
 let handle = function
   | "hm" :: r -> hm_line r
   | "ul" :: r -> ul_line r
@@ -347,6 +428,7 @@ let handle = function
   | "pl" :: r -> pl_line r
   | "av" :: r -> av_line r
   | "po" :: r -> po_line r
+  | "pf" :: r -> pf_line r
   | [] -> ""
   | _ -> "?"
 let () = main_loop handle
